@@ -1,4 +1,5 @@
 import TunnoxModel.Model.C05
+import TunnoxModel.Gen.C05
 import TunnoxModel.Proofs.C01
 /-!
 # C05 — hostile bytes cannot make the reader spin or allocate without bound
@@ -118,6 +119,30 @@ theorem C05_chunk_indep (c : Codec) (f : Nat) (s₁ s₂ : Src)
     (h₁ : s₁.NonEmptyChunks) (h₂ : s₂.NonEmptyChunks) (hflat : s₁.flat = s₂.flat) :
     readAll c f s₁ = readAll c f s₂ := by
   rw [readAll_flat c f s₁ h₁, readAll_flat c f s₂ h₂, hflat]
+
+/-! ### The session dispatcher (`SessionManager.HandlePacket`) as a total routing table
+
+`Gen.HandlePacket_route` is the tag-less `switch` of `HandlePacket`, translated from the Go source on
+every run.  For every one of the 256 type bytes it names exactly one of the four handlers or the
+`default` branch (which returns the "unhandled packet type" error): there is no type byte for which the
+dispatcher falls through without a result, whatever flag bits are set. -/
+
+theorem C05_dispatch_total : ∀ t, t < 256 →
+    Gen.HandlePacket_route t ∈
+      ["handleCommandPacket", "handleHandshake", "handleTunnelOpen", "handleHeartbeat", "default"] := by
+  decide +kernel
+
+/-- The routing ignores the compression/encryption flag bits and depends on the base type only. -/
+theorem C05_dispatch_ignores_flags : ∀ t, t < 256 →
+    Gen.HandlePacket_route t = Gen.HandlePacket_route (t % 64) := by
+  decide +kernel
+
+/-- Exactly the five dispatched base types are handled; every other one is refused by `default`. -/
+theorem C05_dispatch_table : ∀ t, t < 64 →
+    (Gen.HandlePacket_route t = "default") =
+      !(t == packet.Handshake || t == packet.Heartbeat || t == packet.JsonCommand ||
+        t == packet.CommandResp || t == packet.TunnelOpen) := by
+  decide +kernel
 
 /-! Non-vacuity: a hostile length field, as a concrete evaluation of the model. -/
 example : (parseFlat ⟨id, fun _ => none, some⟩ [0x22, 0xFF, 0xFF, 0xFF, 0xFF, 1, 2]).1 = .fail .tooLarge := by
